@@ -683,9 +683,22 @@ def rule_local_converters_agree(ctx, facts, rule):
         ok = ok and has_origin(prov.of_operand(tsr, t["args"][1]), kind="param", key=2, path=(".trace_id",)) and \
             has_origin(prov.of_operand(tsr, t["args"][2]), kind="param", key=2, path=(".span_id",)) and \
             has_origin(prov.of_operand(tsr, t["args"][0]), kind="param", key=1, path=())
-        # the records and danglings handed to mount are the ones amend wrote to
-        ok = ok and root_local(tsr, t["args"][3])[0] == root_local(tsr, tsr.term(m[0])["args"][0])[0] and \
-            root_local(tsr, t["args"][4])[0] == root_local(tsr, tsr.term(m[0])["args"][1])[0]
+        # the records and danglings handed to mount are the ones amend wrote to (passed one by one or inside a parameter object)
+        def roots(op):
+            out = set()
+            if op["k"] in ("copy", "move"):
+                rl = root_local(tsr, op)[0]
+                out.add(rl)
+                sd = tsr.single_def(rl)
+                if sd and sd[1] != "term" and sd[2]["k"] == "assign" and sd[2]["rv"]["k"] == "agg":
+                    for o2 in sd[2]["rv"]["ops"]:
+                        out |= roots(o2)
+            return out
+        amend_roots = set()
+        for a in t["args"]:
+            amend_roots |= roots(a)
+        mt = tsr.term(m[0])
+        ok = ok and all(root_local(tsr, a)[0] in amend_roots for a in mt["args"][:2] if a["k"] in ("copy", "move"))
     ctx.check(ok, rule, tsr.path, tsr.span,
               "to_span_records converts with the collector's amend_local_span (trace <- context.trace_id, parent <- context.span_id) "
               "and then mounts attachments with the collector's mount_danglings", "", "call shape differs", extra="to_span_records")
@@ -800,11 +813,17 @@ def rule_record_times(ctx, facts, rule):
         if fn is None:
             continue
         nm = p.rsplit("::", 1)[1]
+
+        def is_anchor(x, fn=fn):
+            """the caller's anchor: the &Anchor parameter, or the anchor field of a parameter object"""
+            if x.kind != "param" or not (1 <= x.key <= fn.arg_count):
+                return False
+            return (x.path == () and fn.locals[x.key].rstrip(">").endswith("instant::Anchor")) or x.path[-1:] == (".anchor",)
         for c in [c for c in constructions(facts, SPAN_RECORD, crates=["fastrace"]) if c[0] is fn]:
             _, b, s, f = c
             bsrc = data_origins(prov.of_operand(fn, f["begin_time_unix_ns"]))
             expect(ctx, rule, fn, fn.loc(b), "%s: begin_time_unix_ns <- begin_instant converted with the anchor parameter" % nm, bsrc,
-                   [("begin_instant", lambda x: suffix_is(x, ".begin_instant")), ("anchor param", lambda x: sig(x) == ("param", 6, ()))],
+                   [("begin_instant", lambda x: suffix_is(x, ".begin_instant")), ("anchor param", is_anchor)],
                    [("end_instant", lambda x: suffix_is(x, ".end_instant") or suffix_is(x, ".end_time"))], extra="begin")
             dsrc = prov.of_operand(fn, f["duration_ns"])
             sub = [v[2] for x in dsrc for v in x.via if v[0] == "call" and v[1].endswith("saturating_sub")]
@@ -823,10 +842,11 @@ def rule_record_times(ctx, facts, rule):
             _, b, s, f = c
             expect(ctx, rule, fn, fn.loc(b), "%s: event timestamp <- the pseudo-span's begin_instant" % nm,
                    data_origins(prov.of_operand(fn, f["timestamp_unix_ns"])),
-                   [("begin_instant", lambda x: suffix_is(x, ".begin_instant")), ("anchor param", lambda x: sig(x) == ("param", 6, ()))],
+                   [("begin_instant", lambda x: suffix_is(x, ".begin_instant")), ("anchor param", is_anchor)],
                    [("end", lambda x: suffix_is(x, ".end_instant") or suffix_is(x, ".end_time"))], extra="event")
         conv = fn.calls_re(r"fastant::instant::Instant::as_unix_nanos$", cleanup=False)
-        okc = bool(conv) and all({sig(x) for x in data_origins(prov.of_operand(fn, fn.term(b)["args"][1]))} == {("param", 6, ())} for b in conv)
+        okc = bool(conv) and all(bool(data_origins(prov.of_operand(fn, fn.term(b)["args"][1]))) and
+                                 all(is_anchor(x) for x in data_origins(prov.of_operand(fn, fn.term(b)["args"][1]))) for b in conv)
         ctx.check(okc, rule, p, fn.span, "%s: every instant is converted with the function's anchor parameter" % nm, "%d conversions" % len(conv),
                   "a conversion uses another anchor", extra="anchor")
         anch = fn.calls_re(r"fastant::instant::Anchor::new$", cleanup=False)
